@@ -592,3 +592,34 @@ func stepKinds(ss []Step) string {
 	}
 	return strings.Join(parts, " ")
 }
+
+// variant: another document of a similar shape (so that the same paths mostly still apply) with other values:
+// kind 0 empties every array, kind 1 reverses and extends them; scalars change.  Used to give a parsed function
+// a PAST on another document before the call that is judged.
+func (v MV) variant(kind int) MV {
+	switch v.T {
+	case "num":
+		return MV{T: "num", N: v.N + 1000}
+	case "str":
+		return MV{T: "str", S: append(append([]int{}, v.S...), 120)}
+	case "bool":
+		return MV{T: "bool", B: !v.B}
+	case "arr":
+		if kind == 0 {
+			return MV{T: "arr"}
+		}
+		out := MV{T: "arr"}
+		for i := len(v.A) - 1; i >= 0; i-- {
+			out.A = append(out.A, v.A[i].variant(kind))
+		}
+		out.A = append(out.A, MV{T: "num", N: 7000})
+		return out
+	case "obj":
+		out := MV{T: "obj"}
+		for _, kv := range v.O {
+			out.O = append(out.O, MKV{Key: kv.Key, Val: kv.Val.variant(kind)})
+		}
+		return out
+	}
+	return v
+}
